@@ -1,7 +1,12 @@
 //! Handle network connections for a varlink service
 #![allow(dead_code)]
 
+#[cfg(not(varlink_rust_verif))]
 use std::{env, fs, thread};
+#[cfg(varlink_rust_verif)]
+use shuttle::thread;
+#[cfg(varlink_rust_verif)]
+use std::{env, fs};
 //#![feature(getpid)]
 //use std::process;
 use std::io::{BufRead, BufReader};
@@ -14,6 +19,12 @@ use std::os::unix::net::{UnixListener, UnixStream};
 #[cfg(windows)]
 use std::os::windows::io::{AsRawSocket, FromRawSocket, IntoRawSocket, RawSocket};
 use std::process;
+#[cfg(varlink_rust_verif)]
+use shuttle::sync::{
+    atomic::{AtomicBool, Ordering},
+    mpsc, Arc, Mutex, RwLock,
+};
+#[cfg(not(varlink_rust_verif))]
 use std::sync::{
     atomic::{AtomicBool, Ordering},
     mpsc, Arc, Mutex, RwLock,
